@@ -9,7 +9,7 @@ import z3
 from pyvc import core as C
 from pyvc import tensor as T
 from pyvc.core import INT, REAL, Sym
-from pyvc.lib.ext_returns import induct
+from pyvc.lib.ext_returns import definitions_of, induct, oblige_hinted
 from pyvc.lib.ext_symlist import SymList, fresh_symlist
 from pyvc.interp import LoopSpec
 from pyvc.runner import Task
@@ -51,16 +51,31 @@ def shape_is(E, name, t, shape):
         E.st.fail(name, f"shape {getattr(t, 'shape', type(t).__name__)} instead of {shape}")
 
 
-def fold_is(E, name, n, inv, direct, sorts=(), using=None):
-    """the last lax.scan fold satisfies the inductive invariant inv(scan, *params, k);
-    when the scan was unrolled (concrete sizes) the consequence `direct()` is checked instead
-    under the same obligation name (counterexample confirmation)"""
+def forall_hinted(E, name, sorts, fn, hints, hint="sk"):
+    """Skolemised forall-goal proved from chosen instances of the hypotheses; assumed afterwards"""
+    sks = [E.st.fresh(f"{hint}{i}", s) for i, s in enumerate(sorts)]
+    oblige_hinted(E, name, fn(*sks), hints(*sks))
+    E.st.assume_forall(list(sorts), fn, name)
+
+
+def fold_is(E, name, n, inv, chain, sorts=(), using=None, base_hints=None, step_hints=None):
+    """the last lax.scan fold satisfies the inductive invariant inv(scan, *params, k).
+    When the scan was unrolled (concrete sizes) there is no fold to induct over: the
+    consequence is checked directly, under the same obligation name (used for counterexample
+    confirmation and the bounded stand-ins), as a chain [(goal, hints, carry constant), ...]
+    in scan order, each link proved from the definition of its carry and the previous link."""
     scans = E.st.ghost.get("scans") or []
     if scans:
         sc = scans[-1]
-        return induct(E, name, n, list(sorts), lambda *a: inv(sc, *a), using=using)
+        return induct(E, name, n, list(sorts), lambda *a: inv(sc, *a), using=using,
+                      base_hints=(lambda *a: base_hints(sc, *a)) if base_hints else None,
+                      step_hints=(lambda *a: step_hints(sc, *a)) if step_hints else None)
     E.st.ok(f"{name}.base")
-    E.oblige(f"{name}.step", Sym(direct()))
+    prev = []
+    for goal, hints, consts in chain():
+        g = C.as_bool(goal)
+        oblige_hinted(E, f"{name}.step", g, hints, assume_after=True, only=definitions_of(E, *consts) + prev)
+        prev = [f for f in E.st.pc[-1:] if f.get_id() == g.get_id()]
     return True
 
 
@@ -81,9 +96,9 @@ def run_gae(E, pre, n, inp, gamma, lam, defaults=False):
     A = gae_spec(E, pre + "A", n, r, v, nv, term, Fraction(99, 100) if defaults else gamma, Fraction(95, 100) if defaults else lam)
     res = E.call(GAE, r, v, nv, term) if defaults else E.call(GAE, r, v, nv, term, gamma, lam)
     adv, ret = res.get("advantages"), res.get("returns")
-    nc = n if isinstance(n, int) else 0
-    fold_is(E, pre + "gae.fold", n, lambda sc, k: sc["carry"](k)[0].z == A(T.dim_z(n) - k),
-            lambda: z3.And(*[C.as_bool(C.compare("==", adv.at(t), Sym(A(z3.IntVal(t))))) for t in range(nc)]))
+    nz = T.dim_z(n)
+    fold_is(E, pre + "gae.fold", n, lambda sc, k: sc["carry"](k)[0].z == A(nz - k),
+            lambda: [(C.compare("==", adv.at(t), Sym(A(z3.IntVal(t)))), [(pre + "A.rec", (t,))], [adv.at(t), A(nz)]) for t in range(n - 1, -1, -1)])
     oblige_tensor_eq(E, pre + "gae.advantage_is_recurrence", adv, T.Tensor((n,), lambda t: Sym(A(C.to_z3(t))), REAL))
     oblige_tensor_eq(E, pre + "gae.returns_is_adv_plus_value", ret, T.Tensor((n,), lambda t: Sym(A(C.to_z3(t)) + zr(v.at(t))), REAL))
     return A, adv, ret
@@ -279,29 +294,123 @@ def mk_h_a2c(sizes=None):
         fobs, fact, fadv, fret = E.call(A2C, buf, vf, last_obs, space, gamma, lam)
         Nz = T.dim_z(N)
         fold_is(E, "a2c.fold", n, lambda sc, e, k: z3.Implies(z3.And(e >= 0, e < Nz), sc["funs"][0](e, k) == A(e, nz - k)),
-                lambda: z3.BoolVal(True), sorts=[INT])
+                lambda: [], sorts=[INT],
+                base_hints=lambda sc, e: [(f"scan{sc['id']}.init", (e,)), ("A.end", (e,))],
+                step_hints=lambda sc, e, k: [(f"scan{sc['id']}.step", (e, k)), ("A.rec", (e, nz - 1 - k)),
+                                             ("a2c.index", (nz - 1 - k, e)), ("a2c.index", (nz - k, e))])
         total = T.norm_dim(C.binop("*", n, N))
         shape_is(E, "a2c.advantages_shape", fadv, (total,))
         shape_is(E, "a2c.returns_shape", fret, (total,))
+        sid = E.st.ghost["scans"][-1]["id"] if E.st.ghost.get("scans") else None
 
         def flat(t, e):
-            return C.binop("+", C.binop("*", t, N), e)
+            return C.binop("+", C.binop("*", Sym(t), N), Sym(e))
 
         def rng(t, e):
             return z3.And(t >= 0, t < nz, e >= 0, e < Nz)
 
-        E.st.oblige_forall("a2c.advantage_is_own_env_gae", [INT, INT],
-                           lambda t, e: z3.Implies(rng(t, e), zr(fadv.at(flat(Sym(t), Sym(e)))) == A(e, t)), hint="te")
-        E.st.oblige_forall("a2c.returns_is_own_env_gae_plus_value", [INT, INT],
-                           lambda t, e: z3.Implies(rng(t, e), zr(fret.at(flat(Sym(t), Sym(e)))) == A(e, t) + V(t, e)), hint="te")
-        E.st.oblige_forall("a2c.observation_row_of_flat_index", [INT, INT, INT],
-                           lambda t, e, d: z3.Implies(z3.And(rng(t, e), d >= 0, d < T.dim_z(D)), zr(fobs.at(flat(Sym(t), Sym(e)), Sym(d))) == zr(obs.at(t, e, d))), hint="ted")
-        E.oblige("canary.a2c", C.compare("==", fadv.at(0), 0), assume_after=False)
+        def hints(t, e, *_):
+            if sid is None:
+                return []
+            return [("a2c.index", (t, e)), ("a2c.index", (t + 1, e)), (f"scan{sid}.step", (e, nz - 1 - t)), ("a2c.fold.ind", (e, nz - t)),
+                    ("a2c.fold.ind", (e, nz - 1 - t))]
+
+        forall_hinted(E, "a2c.advantage_is_own_env_gae", [INT, INT],
+                      lambda t, e: z3.Implies(rng(t, e), zr(fadv.at(flat(t, e))) == A(e, t)), hints, hint="te")
+        forall_hinted(E, "a2c.returns_is_own_env_gae_plus_value", [INT, INT],
+                      lambda t, e: z3.Implies(rng(t, e), zr(fret.at(flat(t, e))) == A(e, t) + V(t, e)), hints, hint="te")
+        forall_hinted(E, "a2c.observation_row_of_flat_index", [INT, INT, INT],
+                      lambda t, e, d: z3.Implies(z3.And(rng(t, e), d >= 0, d < T.dim_z(D)), zr(fobs.at(flat(t, e), Sym(d))) == zr(obs.at(t, e, d))),
+                      lambda t, e, d: [("a2c.index", (t, e))] if sid is not None else [], hint="ted")
+        tc, ec = E.int("t_c", 0), E.int("e_c", 0)
+        E.assume(C.band(tc < n, ec < N))
+        oblige_hinted(E, "canary.a2c", C.compare("==", fadv.at(flat(tc.z, ec.z)), 0), hints(tc.z, ec.z) + ([("A.rec", (ec.z, tc.z))] if sid is not None else []))
+
+    return h
+
+
+# ------------------------------------------------------------ PPO: GAE on the flattened rollout
+PPO_UPDATE = "rl_blox.algorithm.ppo.update_ppo"
+
+
+class _Stop(Exception):
+    """raised by the compute_gae spy: the rest of update_ppo (losses, optimizer steps) belongs to C12"""
+
+
+def setup_ppo(shared):
+    def spy(E, *a, **k):
+        res = E.call_closure(E.resolve(GAE), list(a), dict(k))  # the REAL compute_gae (inlined), observed
+        E.st.ghost["c07.gae_call"] = dict(args=a, kwargs=k, result=res)
+        raise _Stop()
+
+    shared.stubs[GAE] = spy
+
+
+def mk_h_ppo(sizes=None):
+    def h(E):
+        Ne, n = sizes if sizes else (E.dim("E"), E.dim("T"))
+        M = T.norm_dim(C.binop("*", Ne, n))
+        D = E.dim("D_obs")
+        observation = rows_tensor(E, "observation", (M,), D)
+        action = T.fresh_tensor("action", (M,), INT)
+        reward = T.fresh_tensor("reward", (M,), REAL)
+        terminated = flags01(E, "terminated", M)
+        next_value = T.fresh_tensor("next_value", (M,), REAL)
+        critic = mk_net(E, "critic", 1)
+        actor = mk_net(E, "actor", 1)
+        nz, Ez, Mz = T.dim_z(n), T.dim_z(Ne), T.dim_z(M)
+        gamma, lam = Fraction(99, 100), Fraction(95, 100)  # update_ppo uses compute_gae's defaults
+        Vc = net_call(E, critic, observation)
+
+        def fl(t, e):  # env-major flattening produced by collect_trajectories.reshape_batch
+            return e * nz + t
+
+        # REQUIRED (property): the advantage at flat index e*T+t is environment e's own GAE
+        A = gae_spec_env(E, "A", n, Ne, lambda t, e: zr(reward.at(fl(t, e))), lambda t, e: zr(Vc.at(fl(t, e), 0)),
+                         lambda t, e: zr(next_value.at(fl(t, e))), lambda t, e: zr(terminated.at(fl(t, e))), gamma, lam)
+        try:
+            E.call(PPO_UPDATE, actor, critic, None, None, observation, action, reward, terminated, next_value, 1)
+            E.st.fail("update_ppo.calls_compute_gae", "update_ppo returned without computing advantages")
+            return
+        except _Stop:
+            E.st.ok("update_ppo.calls_compute_gae")
+        call = E.st.ghost["c07.gae_call"]
+        adv, ret = call["result"].get("advantages"), call["result"].get("returns")
+        shape_is(E, "ppo.advantages_shape", adv, (M,))
+        # what the code computes: ONE recurrence over the whole flattened array
+        AF = gae_spec(E, "AF", M, reward, T.Tensor((M,), lambda f: Vc.at(f, 0), REAL), next_value, terminated, gamma, lam)
+        fold_is(E, "ppo.fold", M, lambda sc, k: sc["carry"](k)[0].z == AF(Mz - k),
+                lambda: [(C.compare("==", adv.at(f), Sym(AF(z3.IntVal(f)))), [("AF.rec", (f,))], [adv.at(f), AF(Mz)]) for f in range(M - 1, -1, -1)],
+                base_hints=lambda sc: [], step_hints=lambda sc, k: [(f"scan{sc['id']}.step", (k,)), ("AF.rec", (Mz - 1 - k,))])
+        sid = E.st.ghost["scans"][-1]["id"] if E.st.ghost.get("scans") else None
+        ground = []
+        if sid is None:  # concrete sizes: every instance of the specification recurrences
+            ground = [("AF.rec", (f,)) for f in range(M)] + [("A.end", (e,)) for e in range(Ne)] + [("A.rec", (e, t)) for e in range(Ne) for t in range(n)]
+
+        def rng(t, e):
+            return z3.And(t >= 0, t < nz, e >= 0, e < Ez)
+
+        def hints(t, e):
+            if sid is None:
+                return ground
+            f = fl(t, e)
+            return [(f"scan{sid}.step", (Mz - 1 - f,)), ("ppo.fold.ind", (Mz - f,)), ("ppo.fold.ind", (Mz - 1 - f,)), ("A.rec", (e, t)), ("AF.rec", (f,)),
+                    ("A.end", (e,))]
+
+        forall_hinted(E, "post.per_env_gae", [INT, INT],
+                      lambda t, e: z3.Implies(rng(t, e), zr(adv.at(fl(t, e))) == A(e, t)), hints, hint="te")
+        forall_hinted(E, "post.per_env_returns", [INT, INT],
+                      lambda t, e: z3.Implies(rng(t, e), zr(ret.at(fl(t, e))) == A(e, t) + zr(Vc.at(fl(t, e), 0))), hints, hint="te")
+        tc, ec = E.int("t_c", 0), E.int("e_c", 0)
+        E.assume(C.band(tc < n, ec < Ne))
+        oblige_hinted(E, "canary.ppo", C.compare("==", adv.at(fl(tc.z, ec.z)), 0), hints(tc.z, ec.z))
 
     return h
 
 
 TASKS = [Task("prepare_a2c_batch", mk_h_a2c()),
+         Task("update_ppo", mk_h_ppo(), setup=setup_ppo),
+         Task("update_ppo[E=2,T=2]", mk_h_ppo((2, 2)), setup=setup_ppo, bounded="E = 2 environments, T = 2 steps (scan unrolled)"),
          Task("compute_gae", mk_h_gae()), Task("compute_gae[T=1]", mk_h_gae(1)), Task("compute_gae[defaults]", mk_h_gae(None, True)),
          Task("compute_gae[T=3]", mk_h_gae(3), bounded="T = 3 (scan unrolled)"), Task("gae_noninterference", h_gae_ni), Task("reward_to_go", h_rtg, setup=setup_rtg), Task("n_step_return", h_nstep, setup=setup_nstep)]
 TRUSTED = []
